@@ -2,6 +2,9 @@ package main
 
 import (
 	"fmt"
+	"go/ast"
+	"go/types"
+	"sort"
 	"strings"
 )
 
@@ -20,6 +23,31 @@ func dumpRoles(w *World) {
 func dumpTerm(w *World, spec string) {
 	if spec == "roles" {
 		dumpRoles(w)
+		return
+	}
+	if strings.HasPrefix(spec, "cost:") {
+		for _, v := range variants(w) {
+			if v.name == strings.TrimPrefix(spec, "cost:") {
+				paths, e := costPaths(w, v)
+				fmt.Println(len(paths), e)
+				for i, cp := range paths {
+					if i > 12 {
+						break
+					}
+					fmt.Printf("--- path %d flow=%d retErr=%v\n", i, cp.flow, cp.retErr)
+					for _, c := range cp.conds {
+						fmt.Printf("    %v %s\n", c.pos, clip(c.c.Pretty(), 160))
+					}
+					for _, a := range cp.addends {
+						fmt.Printf("    + %s\n", clip(a.Pretty(), 100))
+					}
+				}
+			}
+		}
+		return
+	}
+	if spec == "mapranges" {
+		dumpMapRanges(w)
 		return
 	}
 	parts := strings.SplitN(spec, ":", 2)
@@ -56,3 +84,41 @@ func dumpTerm(w *World, spec string) {
 }
 
 func thorough(ps *propSpec, r *Run, repo string, extra map[string]any) {}
+
+func dumpMapRanges(w *World) {
+	var paths []string
+	for p := range w.Pkgs {
+		if strings.HasPrefix(p, modPath) {
+			paths = append(paths, p)
+		}
+	}
+	sort.Strings(paths)
+	n := 0
+	for _, path := range paths {
+		p := w.Pkgs[path]
+		for _, f := range p.Syntax {
+			for _, d := range f.Decls {
+				fd, ok := d.(*ast.FuncDecl)
+				if !ok || fd.Body == nil {
+					continue
+				}
+				ast.Inspect(fd.Body, func(nd ast.Node) bool {
+					rs, ok := nd.(*ast.RangeStmt)
+					if !ok {
+						return true
+					}
+					t := p.TypesInfo.TypeOf(rs.X)
+					if t == nil {
+						return true
+					}
+					if _, isMap := t.Underlying().(*types.Map); !isMap {
+						return true
+					}
+					n++
+					fmt.Printf("%3d %s %s range %s\n", n, strings.TrimPrefix(path, modPath+"/"), declName(fd), types.ExprString(rs.X))
+					return true
+				})
+			}
+		}
+	}
+}
